@@ -268,80 +268,4 @@ Proof.
   simpl. rewrite IH. eauto.
 Qed.
 
-(* ---- the pipeline *)
-
-Notation PARSE := (parse isalpha isdigit isupper lower_c true kbs fp_words min_run tlds year_prefixes context_strings
-                         mw_threshold mw_min_len mw_max_len).
-
-Theorem parse_ok : kw_split_ok -> email_split_ok -> website_split_ok ->
-  forall m pw, good pw -> pw <> [] ->
-  exists r, PARSE m pw = POk r /\ tiles pm pw (p_sections r) /\ Forall sound (p_sections r) /\
-            Forall (fun y => snd y <> None) (p_sections r).
-Proof.
-  intros Hkw (Hem_err & Hem) (Hweb_err & Hweb) m pw Hg Hne. unfold parse.
-  destruct (Hkw pw Hg Hne) as (sl0 & walks & -> & Ht0 & Hs0).
-  pose proof (tiles_good _ _ Hg Ht0) as Hi0.
-  (* e-mail *)
-  destruct (split_driver_tiling _ (detect_email lower_c true tlds) false pm pm_unlab good sound Hem_err Hem sl0 Hi0 Hs0)
-    as (sl1 & f1 & -> & Ht1 & Hs1 & Hi1).
-  (* website *)
-  destruct (split_driver_tiling _ (detect_website isalpha lower_c true tlds) false pm pm_unlab good sound Hweb_err Hweb sl1 Hi1 Hs1)
-    as (sl2 & f2 & -> & Ht2 & Hs2 & Hi2).
-  (* year *)
-  destruct (split_driver_tiling _ (detect_year isdigit year_prefixes) true pm pm_unlab good sound
-              (fun s _ => detect_year_no_err isdigit year_prefixes s)
-              (fun s p f Hgs _ D => year_split_ok s p f Hgs D) sl2 Hi2 Hs2)
-    as (sl3 & f3 & -> & Ht3 & Hs3 & Hi3).
-  (* context *)
-  destruct (split_driver_tiling _ (detect_context isdigit context_strings) true pm pm_unlab good sound
-              (fun s _ => detect_context_no_err isdigit context_strings s)
-              (fun s p f Hgs _ D => context_split_ok s p f Hgs D) sl3 Hi3 Hs3)
-    as (sl4 & f4 & -> & Ht4 & Hs4 & Hi4).
-  (* alpha *)
-  destruct (split_driver_tiling _ (detect_alpha isalpha isupper lower_c true (mwparse lower_c mw_threshold mw_min_len mw_max_len m))
-              false pm pm_unlab good sound
-              (fun s _ => detect_alpha_no_err isalpha isupper lower_c true _ s (mwp_total m))
-              (fun s p f Hgs _ D => alpha_split_ok m s p f Hgs D) sl4 Hi4 Hs4)
-    as (sl5 & f5 & E5 & Ht5 & Hs5 & Hi5).
-  rewrite E5.
-  assert (Hna5 : unlab_all nalpha sl5).
-  { unfold drive_all in E5. eapply (drive_complete _ _ good nalpha); [| |exact E5|exact Hi4].
-    - intros s Hgs D. unfold nalpha. rewrite <- good_nalpha by assumption.
-      eapply detect_alpha_none; [now apply good_lowne|exact D| |].
-      + intros x _. apply mwp_total.
-      + intros x b. apply mwp_no_empty.
-    - intros s p f Hgs D. destruct (alpha_split_ok m s p f Hgs D) as (_ & _ & Hip & _). split; [assumption|].
-      apply detect_alpha_spec in D; [|intros x b ws; now apply mw_parse_concat|now apply good_lowne].
-      destruct D as (l1 & l2 & l3 & pieces & b & -> & _ & H1 & _ & _ & _ & _ & Hpne & -> & _).
-      destruct l1 as [|c l1].
-      + destruct pieces as [|pc ps]; [congruence|]. simpl. eexists _, _. split; [reflexivity|]. simpl. discriminate.
-      + rewrite osec_cons. simpl. eexists _, _. split; [reflexivity|]. simpl. intros _.
-        unfold nalpha. apply good_app in Hgs. destruct Hgs as (Hg1 & _). now rewrite <- good_nalpha. }
-  (* digit *)
-  set (Inv6 := fun s => good s /\ nalpha s).
-  assert (Hsub6 : forall a b, Inv6 (a ++ b) -> Inv6 a /\ Inv6 b).
-  { intros a b (Hgab & Hnab). apply good_app in Hgab. apply nalpha_app in Hnab. unfold Inv6. tauto. }
-  pose proof (unlab_all_and _ _ _ Hi5 Hna5) as Hi5'.
-  destruct (split_driver_tiling _ (detect_digits isdigit) false pm pm_unlab Inv6 sound
-              (fun s _ => detect_digits_no_err isdigit s)
-              (fun s p f Hgs _ D => digit_split_ok Inv6 s p f Hsub6 Hgs D) sl5 Hi5' Hs5)
-    as (sl6 & f6 & E6 & Ht6 & Hs6 & Hi6).
-  rewrite E6.
-  assert (Hnd6 : unlab_all ndigit sl6).
-  { unfold drive_all in E6. eapply (drive_complete _ _ Inv6 ndigit); [| |exact E6|exact Hi5'].
-    - intros s _ D. now apply detect_digits_none.
-    - intros s p f Hgs D. destruct (digit_split_ok Inv6 s p f Hsub6 Hgs D) as (_ & _ & Hip & _). split; [assumption|].
-      apply detect_digits_spec in D. destruct D as (l1 & l2 & l3 & -> & H1 & _ & _ & _ & -> & _).
-      destruct l1 as [|c l1]; simpl; eexists _, _; (split; [reflexivity|]); simpl; [discriminate|].
-      intros _. exact H1. }
-  assert (Hu6 : unlab_all (fun s => nalpha s /\ ndigit s) sl6).
-  { apply unlab_all_and; [|assumption]. eapply Forall_impl; [|exact Hi6]. intros y Hy E. now apply Hy. }
-  destruct (other_detection sl6) as [sl7 others] eqn:Eo.
-  destruct (other_ok sl6 Hs6 Hu6 pw) as (Ht7 & Hs7 & Hl7).
-  { apply Ht6, Ht5, Ht4, Ht3, Ht2, Ht1, Ht0. }
-  rewrite Eo in Ht7, Hs7, Hl7. simpl in Ht7, Hs7, Hl7.
-  destruct (base_structure_total sl7 Hl7) as (sup & ls & ->).
-  eexists. split; [reflexivity|]. simpl. repeat split; assumption.
-Qed.
-
 End Pipeline.
